@@ -63,7 +63,6 @@ theorem lockset_discipline_partial : disciplineHolds Generated.facts allowed = t
 /-- The excluded class is not empty talk: on the current tree these fields really fail the
     discipline (each is a recorded finding or a reviewed exemption). -/
 theorem lockset_discipline_violation_witness :
-    ("routing.HandlingDataManager", "stream") ∈ violating Generated.facts ∧
     ("lunarcontext.lunarContext", "transactionalContext") ∈ violating Generated.facts := by
   decide +kernel
 
